@@ -544,6 +544,33 @@ def mon_C12_ack(case):
             yield finding("C12", st, "a poll resolved before the status was stored", "C12/resolved-before-status")
 
 
+def mon_C13_ack(case):
+    """C13 on the acknowledgement slice: whatever status the worker (or its drain loop) publishes, the task that is
+    awaiting the acknowledgement — the last one that registered a waker before `done()` wakes — is woken, and a poll
+    after `done()` resolves: no caller waits for ever."""
+    for st in case.steps:
+        if st.kind != "ack":
+            continue
+        head, _, acts = st.ev[2:].partition("|")
+        final = head.split()[0]
+        acts = acts.split()
+        f = ack_fields(st.out)
+        if f.get("cpc") != "finished":
+            continue
+        wakes = [w for w in f.get("wakes", "").split(",") if w]
+        regs_before = []
+        for a in acts:
+            if a == "w":
+                break
+            if a.startswith("lr:"):
+                regs_before.append(a.split(":")[2])
+        want = regs_before[-1:]
+        if want and want[0] not in wakes:
+            yield finding("C13", st, f"done({final}) woke {wakes}: the task awaiting with waker {want[0]} is never woken and waits for ever", "C13/awaiting-task-never-woken")
+        if f.get("flag") != "1" or f.get("status") != final:
+            yield finding("C13", st, f"done({final}) finished without publishing flag and status", "C13/ack-not-resolved")
+
+
 def mon_C12(case):
     yield from mon_C12_ack(case)
     for st, pre, post, fifo, ex in Walk(case):
@@ -1031,6 +1058,8 @@ def _dispatch(pid):
                 yield from _SEQ[pid](case)
         elif pid == "C12":
             yield from mon_C12_ack(case)
+        elif pid == "C13":
+            yield from mon_C13_ack(case)
         elif pid == "C14":
             yield from mon_C14_pure(case)
         elif pid == "C16":
